@@ -190,40 +190,6 @@ fn hnorm(t: &T) -> T {
 }
 
 
-/// Same shape and leaves except for float leaves: returns the differing (expected, got) bit pairs.
-fn float_leaf_diffs(a: &T, b: &T, out: &mut Vec<(u64, u64)>) -> bool {
-    match (a, b) {
-        (T::F(x), T::F(y)) => {
-            if canon_bits(*x) != canon_bits(*y) {
-                out.push((*x, *y));
-            }
-            true
-        }
-        (T::L(xs), T::L(ys)) | (T::Tu(xs), T::Tu(ys)) => xs.len() == ys.len() && xs.iter().zip(ys).all(|(x, y)| float_leaf_diffs(x, y, out)),
-        (T::M(xs), T::M(ys)) => xs.len() == ys.len() && xs.iter().zip(ys).all(|((k1, v1), (k2, v2))| k1 == k2 && float_leaf_diffs(v1, v2, out)),
-        (x, y) => x == y,
-    }
-}
-
-/// F-C20-3 cause rule: the float alone, printed and re-read by serde_json (the crate instance and
-/// feature set koto_json is built with), already comes back as exactly this other float.
-fn json_float_defect(expected: u64, got: u64) -> bool {
-    let f = f64::from_bits(expected);
-    if !f.is_finite() || expected == got {
-        return false;
-    }
-    match serde_json::to_string(&f) {
-        Ok(s) => serde_json::from_str::<f64>(&s).ok().map(|g| g.to_bits()) == Some(got),
-        Err(_) => false,
-    }
-}
-
-/// all differences between `expected` and `got` are float leaves explained by `json_float_defect`
-fn only_json_float_defects(expected: &T, got: &T) -> bool {
-    let mut diffs = vec![];
-    float_leaf_diffs(expected, got, &mut diffs) && !diffs.is_empty() && diffs.iter().all(|(e, g)| json_float_defect(*e, *g))
-}
-
 // --- parser for the canonical value text (model responses) ---
 fn parse_val(s: &str) -> Option<T> {
     let toks = tokenize(s);
@@ -601,6 +567,8 @@ struct Ctx {
     libs: Libs,
     open: Vec<String>,
     known_counts: BTreeMap<String, u64>,
+    /// finite float leaves that came back bit-identical, per format (value positions)
+    float_exact: [u64; 3],
     k_fail: u64,
     d_fail: u64,
 }
@@ -748,11 +716,7 @@ impl Ctx {
                 (bt.text(), model_expected.clone(), hn.text())
             };
             let d_ok = lossy_json || impl_txt == d_txt;
-            let json_known = *fmt == "json" && self.open.iter().any(|o| o == "F-C20-3");
-            if json_known && impl_txt != model_txt && parse_val(&model_txt).is_some_and(|m| only_json_float_defects(&m, &bt)) {
-                // serde_json's default float parser is off by one ulp on this digit string
-                *self.known_counts.entry("F-C20-3".into()).or_insert(0) += 1;
-            } else if !d_ok {
+            if !d_ok {
                 self.viol_d(&format!("C20:{}: round trip differs from the normal form", fmt),
                     json!({"input": req, "format": fmt, "document": txt, "impl": impl_txt, "expected_normal_form": d_txt}));
             } else if impl_txt != model_txt {
@@ -761,14 +725,23 @@ impl Ctx {
             if lossy_json {
                 self.rep.bump("json_non_finite_checked_against_jsonLayer");
             }
+            if d_ok && impl_txt == model_txt && !lossy_json {
+                let mut nf = 0u64;
+                t.walk(&mut |x| {
+                    if let T::F(b) = x {
+                        if f64::from_bits(*b).is_finite() {
+                            nf += 1;
+                        }
+                    }
+                });
+                self.float_exact[FORMATS.iter().position(|f| f == fmt).unwrap()] += nf;
+            }
             // (D) second round trip is the identity (exactly, entry order included)
             match self.libs.to_string(fmt, &back) {
                 Ok(Ok(txt2)) => match self.libs.from_string(fmt, &txt2) {
                     Ok(Ok(back2)) => {
                         let b2 = T::from_kvalue(&back2).map(|x| x.text()).unwrap_or_default();
-                        if b2 != bt.text() && json_known && T::from_kvalue(&back2).is_some_and(|x| only_json_float_defects(&bt, &x)) {
-                            *self.known_counts.entry("F-C20-3".into()).or_insert(0) += 1;
-                        } else if b2 != bt.text() {
+                        if b2 != bt.text() {
                             self.viol_d(&format!("C20:{}: second round trip is not the identity", fmt),
                                 json!({"input": req, "format": fmt, "first": bt.text(), "second": b2, "document": txt, "document2": txt2}));
                         }
@@ -1454,6 +1427,106 @@ impl Fam for Shape {
     }
 }
 
+// Recursive types. A `Ty` is a finite tree, so a recursive Rust type is described by its unfolding
+// to the depth the generator respects, with the empty enum `(en)` (no value, rejects every input)
+// at the cut: every value of depth ≤ LVL has exactly this type.
+#[derive(Serialize, Deserialize, Debug)]
+enum Tree {
+    Leaf(i32),
+    Node(Vec<Tree>),
+    Named { name: String, child: Option<Box<Tree>> },
+}
+impl Tree {
+    const LVL: u32 = 3;
+    fn ty_at(l: u32) -> String {
+        let rec = if l == 0 { "(en)".to_string() } else { Tree::ty_at(l - 1) };
+        format!("(en ({} n i32) ({} n (seq {})) ({} s (st ({} string) ({} (opt {})))))", hx("Leaf"), hx("Node"), rec, hx("Named"), hx("name"), hx("child"), rec)
+    }
+    fn make_at(r: &mut Rng, l: u32) -> Tree {
+        match r.below(3) {
+            0 => Tree::Leaf(i32::make(r, 0)),
+            1 => Tree::Node(if l == 0 { vec![] } else { (0..r.below(3)).map(|_| Tree::make_at(r, l - 1)).collect() }),
+            _ => Tree::Named { name: gen_string(r), child: if l == 0 || r.chance(1, 3) { None } else { Some(Box::new(Tree::make_at(r, l - 1))) } },
+        }
+    }
+}
+impl Fam for Tree {
+    fn ty() -> String { Tree::ty_at(Tree::LVL) }
+    fn make(r: &mut Rng, _d: u32) -> Self { Tree::make_at(r, Tree::LVL) }
+    fn rv(&self) -> String {
+        match self {
+            Tree::Leaf(a) => format!("(var {} n {})", hx("Leaf"), a.rv()),
+            Tree::Node(xs) => format!("(var {} n (seq{}))", hx("Node"), xs.iter().map(|x| format!(" {}", x.rv())).collect::<String>()),
+            Tree::Named { name, child } => format!(
+                "(var {} s (st ({} {}) ({} {})))",
+                hx("Named"), hx("name"), name.rv(), hx("child"),
+                match child { None => "none".to_string(), Some(c) => format!("(some {})", c.rv()) }
+            ),
+        }
+    }
+}
+#[derive(Serialize, Deserialize, Debug)]
+struct Chain {
+    head: u8,
+    tail: Option<Box<Chain>>,
+}
+impl Chain {
+    const LVL: u32 = 5;
+    fn ty_at(l: u32) -> String {
+        let rec = if l == 0 { "(en)".to_string() } else { Chain::ty_at(l - 1) };
+        format!("(st ({} u8) ({} (opt {})))", hx("head"), hx("tail"), rec)
+    }
+    fn make_at(r: &mut Rng, l: u32) -> Chain {
+        Chain { head: u8::make(r, 0), tail: if l == 0 || r.chance(1, 4) { None } else { Some(Box::new(Chain::make_at(r, l - 1))) } }
+    }
+}
+impl Fam for Chain {
+    fn ty() -> String { Chain::ty_at(Chain::LVL) }
+    fn make(r: &mut Rng, _d: u32) -> Self { Chain::make_at(r, Chain::LVL) }
+    fn rv(&self) -> String {
+        format!("(st ({} {}) ({} {}))", hx("head"), self.head.rv(), hx("tail"), match &self.tail { None => "none".to_string(), Some(c) => format!("(some {})", c.rv()) })
+    }
+}
+#[derive(Serialize, Deserialize, Debug)]
+enum Expr {
+    Lit(i64),
+    Var(String),
+    Neg(Box<Expr>),
+    Add(Box<Expr>, Box<Expr>),
+    Call { name: String, args: Vec<Expr> },
+}
+impl Expr {
+    const LVL: u32 = 3;
+    fn ty_at(l: u32) -> String {
+        let rec = if l == 0 { "(en)".to_string() } else { Expr::ty_at(l - 1) };
+        format!("(en ({} n i64) ({} n string) ({} n {}) ({} t (tup {} {})) ({} s (st ({} string) ({} (seq {})))))",
+            hx("Lit"), hx("Var"), hx("Neg"), rec, hx("Add"), rec, rec, hx("Call"), hx("name"), hx("args"), rec)
+    }
+    fn make_at(r: &mut Rng, l: u32) -> Expr {
+        match if l == 0 { r.below(3) } else { r.below(5) } {
+            0 => Expr::Lit(i64::make(r, 0)),
+            1 => Expr::Var(gen_string(r)),
+            2 if l == 0 => Expr::Call { name: gen_string(r), args: vec![] },
+            2 => Expr::Neg(Box::new(Expr::make_at(r, l - 1))),
+            3 => Expr::Add(Box::new(Expr::make_at(r, l - 1)), Box::new(Expr::make_at(r, l - 1))),
+            _ => Expr::Call { name: gen_string(r), args: (0..r.below(3)).map(|_| Expr::make_at(r, l - 1)).collect() },
+        }
+    }
+}
+impl Fam for Expr {
+    fn ty() -> String { Expr::ty_at(Expr::LVL) }
+    fn make(r: &mut Rng, _d: u32) -> Self { Expr::make_at(r, Expr::LVL) }
+    fn rv(&self) -> String {
+        match self {
+            Expr::Lit(a) => format!("(var {} n {})", hx("Lit"), a.rv()),
+            Expr::Var(a) => format!("(var {} n {})", hx("Var"), a.rv()),
+            Expr::Neg(a) => format!("(var {} n {})", hx("Neg"), a.rv()),
+            Expr::Add(a, b) => format!("(var {} t (tup {} {}))", hx("Add"), a.rv(), b.rv()),
+            Expr::Call { name, args } => format!("(var {} s (st ({} {}) ({} (seq{}))))", hx("Call"), hx("name"), name.rv(), hx("args"), args.iter().map(|x| format!(" {}", x.rv())).collect::<String>()),
+        }
+    }
+}
+
 fam_struct!(Prims { a: i8, b: i16, c: i32, d: i64, e: u8, f: u16, g: u32, h: u64, x: f32, y: f64, t: bool, ch: char, s: String, u: () });
 fam_struct!(Doc { title: String, shapes: Vec<Shape>, index: BTreeMap<String, Vec<u16>>, first: Option<Shape>, meters: Meters, pair: Pair, marker: Marker, inner: Inner });
 fam_struct!(Deep { level: Option<Box<Vec<BTreeMap<String, Option<(Shape, Vec<Option<i64>>)>>>>>, opts: Vec<Option<Vec<Option<bool>>>>, wide: (i128, u128) });
@@ -1576,7 +1649,7 @@ fn mutate_at(r: &mut Rng, t: &T, target: usize, idx: &mut usize, names: &[String
     }
 }
 
-const VARIANT_NAMES: &[&str] = &["Empty", "Dot", "Circle", "Label", "Rect", "Tagged", "Poly", "Styled", "Nested", "名前 with space", "None_", "Gray", "Rgb", "points", "closed", "fill", "width", "id", "tags", "pos", "note", "a", "b", "c", "d"];
+const VARIANT_NAMES: &[&str] = &["Leaf", "Node", "Named", "name", "child", "head", "tail", "Lit", "Var", "Neg", "Add", "Call", "args", "Empty", "Dot", "Circle", "Label", "Rect", "Tagged", "Poly", "Styled", "Nested", "名前 with space", "None_", "Gray", "Rgb", "points", "closed", "fill", "width", "id", "tags", "pos", "note", "a", "b", "c", "d"];
 
 impl Ctx {
     /// (K3) one Rust type: round trips of generated values, then mutated inputs
@@ -1746,16 +1819,7 @@ impl Ctx {
                 };
                 self.rep.bump(&format!("oor_grid={}", if in_range { "in-range" } else { "out-of-range" }));
                 if !in_range && real != "err" {
-                    // accepted although out of range. F-C20-1: the saturating `From<KNumber>` conversions
-                    let clamped = match math {
-                        Some(m) => format!("ok n{}", m.clamp(lo, hi).clamp(i64::MIN as i128, i64::MAX as i128)),
-                        None => "ok n0".to_string(),
-                    };
-                    if real == clamped && self.open.iter().any(|o| o == "F-C20-1") {
-                        *self.known_counts.entry("F-C20-1".into()).or_insert(0) += 1;
-                    } else {
-                        self.viol_d("C20:out-of-range number accepted by from_koto_value", json!({"input": req, "impl": real, "expected": "error"}));
-                    }
+                    self.viol_d("C20:out-of-range number accepted by from_koto_value", json!({"input": req, "impl": real, "expected": "error"}));
                 }
             }
         }
@@ -1988,7 +2052,7 @@ fn main() {
     rep.rule = "cases: (1) value trees (seeded generator, nesting ≤ 5, string/int/float pools + random bit patterns; corpus; finding witnesses) through serialize.rs→recorder, and through json/yaml/toml to_string∘from_string twice; (2) serde-data-model trees replayed into KValueVisitor; (3) values of a family of Rust types through to_koto_value/from_koto_value, plus edited Koto values into from_koto_value, plus an integer-bounds grid; (4) hand-written and corrupted documents into the three parsers (worker process). distinct = distinct canonical request lines; non-trivial = tree with ≥ 3 nodes / data-model tree with ≥ 2 nodes / Rust value other than a bare scalar / document of ≥ 2 bytes".into();
     let open: Vec<String> = rep.known_open().iter().filter_map(|e| e.get("id").and_then(|x| x.as_str()).map(|s| s.to_string())).collect();
     let drv = Driver::spawn(&args.driver);
-    let mut cx = Ctx { rep, drv, libs: Libs::new(), open, known_counts: Default::default(), k_fail: 0, d_fail: 0 };
+    let mut cx = Ctx { rep, drv, libs: Libs::new(), open, known_counts: Default::default(), float_exact: [0; 3], k_fail: 0, d_fail: 0 };
     let mut worker = kvh::worker::Worker::spawn(&["--worker".to_string()]);
     let thorough = args.thorough();
 
@@ -2058,6 +2122,18 @@ fn main() {
         cx.check_tree(&t, match i % 10 { 0..=3 => "strict", 4..=6 => "strict-toml", 7 | 8 => "odd-keys", _ => "wide" });
     }
 
+    // ---- 1b. float exactness: random finite bit patterns and decimal-looking values, 40 per document ----
+    let n_float_docs = if thorough { 2500 } else { 100 };
+    for i in 0..n_float_docs {
+        let es: Vec<(T, T)> = (0..40)
+            .map(|j| {
+                let b = if i % 2 == 0 { loop { let b = rng.next_u64(); if f64::from_bits(b).is_finite() { break b; } } } else { gen_finite(&mut rng) };
+                (T::S(format!("f{}", j)), if j % 5 == 4 { T::Tu(vec![T::F(b)]) } else { T::F(b) })
+            })
+            .collect();
+        cx.check_tree(&T::M(es), "floats");
+    }
+
     // ---- 2. serde data model → KValueVisitor ----
     let n_sv = if thorough { 60000 } else { 4000 };
     for i in 0..n_sv {
@@ -2088,6 +2164,7 @@ fn main() {
     rust!(Meters, "Meters(i16)"); rust!(Pair, "Pair(i32,String)"); rust!(Marker, "Marker");
     rust!(Fill, "enum Fill"); rust!(Shape, "enum Shape"); rust!(Inner, "struct Inner"); rust!(Prims, "struct Prims");
     rust!(OptFields, "struct OptFields"); rust!(Doc, "struct Doc"); rust!(Deep, "struct Deep");
+    rust!(Tree, "recursive enum Tree"); rust!(Chain, "recursive struct Chain"); rust!(Expr, "recursive enum Expr"); rust!(Vec<Tree>, "Vec<Tree>");
     rust!(Vec<Shape>, "Vec<Shape>"); rust!(Option<Vec<BTreeMap<String, Fill>>>, "Option<Vec<BTreeMap<String,Fill>>>");
     cx.oor_grid();
 
@@ -2176,6 +2253,8 @@ fn main() {
     cx.rep.extra.insert("k_disagreements".into(), json!(k));
     cx.rep.extra.insert("d_failures".into(), json!(d));
     cx.rep.extra.insert("driver_requests".into(), json!(cx.drv.requests));
-    cx.rep.extra.insert("rust_type_family".into(), json!(["i8..u64", "i128", "u128", "f32", "f64", "bool", "char", "String", "()", "Option", "Vec", "tuples (1,2,3)", "BTreeMap<String,_>", "newtype/tuple/unit structs", "structs", "enums with unit/newtype/tuple/struct variants (incl. renamed, boxed, nested)"]));
+    cx.rep.extra.insert("finite_floats_bit_exact_after_round_trip".into(), json!({"json": cx.float_exact[0], "yaml": cx.float_exact[1], "toml": cx.float_exact[2],
+        "note": "finite float leaves (value positions) of all trees of this run whose first and second round trip were bit-identical; a single differing bit is a VIOLATION, so these are all float leaves checked"}));
+    cx.rep.extra.insert("rust_type_family".into(), json!(["i8..u64", "i128", "u128", "f32", "f64", "bool", "char", "String", "()", "Option", "Vec", "tuples (1,2,3)", "BTreeMap<String,_>", "newtype/tuple/unit structs", "structs", "enums with unit/newtype/tuple/struct variants (incl. renamed, boxed, nested)", "recursive types Tree / Chain / Expr (described by their finite unfolding with the empty enum at the cut)"]));
     std::process::exit(cx.rep.finish());
 }
